@@ -23,7 +23,7 @@ def gen_cases(tier, seed):
         yield {"seed": "%d:%d" % (seed, i), "impl": ("sync", "async")[i % 2]}
     # several streams of ONE actor alive at once (generators consumed alternately): packets of the stream that is not reading get parked and are taken from the store later
     for i in range(150 if tier == "quick" else 3000):
-        yield {"kind": "interleave", "seed": "%d:il%d" % (seed, i), "impl": ("sync", "async")[i % 2]}
+        yield {"kind": "interleave", "seed": "%d:il%d" % (seed, i), "impl": ("sync", "async")[i % 2], "early_close": i % 5 < 2}
 
 
 def run_case(case):
